@@ -1,1 +1,226 @@
-/- property theorems of C03 (only theorems + non-vacuity examples live here) -/
+import Got.Model.Wheel
+import Got.Lemmas.Wheel
+/-
+C03 — Wheel timers fire exactly once, never late and less than one step early.
+
+Model: Got/Model/Wheel.lean (transition system of loom/wheel.go + wheel_timer.go, one transition per atomic
+access; `run fixed (init n step) acts` for an arbitrary action list `acts` covers every number of requester
+threads, every program of NewTimer/AfterFunc/Reset calls and every interleaving with the ticker).
+Helper lemmas and the inductive invariant: Got/Lemmas/Wheel.lean.
+
+Vocabulary: tick j = the j-th call of onTicker; `adv` = ticks started (position stores done), `cls` = ticks
+completed (closes done); `due c` = the tick that is to close channel c; a completed request is recorded as
+`Req` (bucket offset k, cls/adv at the call, adv at the return, returned channel).
+On the wheel's own tick clock tick j happens at time j·step.
+-/
+open Got.Model.Wheel Got.Lemmas.Wheel
+
+/-! ### structural facts the model relies on (regenerated from the source on every check) -/
+
+/-- The hook sites in onTicker / fetchWheelData (the wheel-site literals of the function bodies, in program
+    order) appear in the order the model's program counters assume:
+    ticker = loadPos(3) storePos(6) swapSlot(5) close(7);  request = loadPos(3) loadSlot(4) reloadPos(3). -/
+theorem C03_sites : tickerSites = [3, 6, 5, 7] ∧ requestSites = [3, 4, 3] := by decide
+
+/-! ### range check, bucket offset, Reset -/
+
+/-- The request panics iff `d < 0 ∨ d ≥ step·n`; otherwise the bucket offset satisfies `k+1 = max ⌊d/step⌋ 1`
+    and `k+1 ≤ n-1` (for n ≥ 2; `k = 0` on a one-bucket wheel). -/
+theorem C03_range (step n : Nat) (d : Int) :
+    (rangePanics step n d = true ↔ (d < 0 ∨ (step : Int) * n ≤ d)) ∧
+    (rangePanics step n d = false →
+      bucketIndex step d + 1 = max (d.toNat / step) 1 ∧
+      (bucketIndex step d + 1 < n ∨ (n = 1 ∧ bucketIndex step d = 0))) := by
+  refine ⟨rangePanics_iff step n d, fun h => ⟨?_, bucketIndex_range step n d h⟩⟩
+  have h' : ¬ (d < 0 ∨ (step : Int) * n ≤ d) := by rw [← rangePanics_iff]; simp [h]
+  exact bucketIndex_succ step d (by omega)
+
+example : rangePanics 10 3 29 = false ∧ rangePanics 10 3 30 = true ∧ rangePanics 10 3 (-1) = true ∧
+    bucketIndex 10 29 = 1 ∧ bucketIndex 10 9 = 0 ∧ bucketIndex 10 10 = 0 ∧ bucketIndex 10 20 = 1 := by decide
+
+/-- Reset re-arms the timer exactly like a fresh request for the selected interval (the argument if it is
+    at least one step, the timer's own interval otherwise); hence every theorem below, being stated for all
+    action lists, covers Reset with the guarantee counted from the Reset call. -/
+theorem C03_reset (s : State) (t : Nat) (base : Int) (arg : Option Int) :
+    step fixed s (.reset t base arg) = step fixed s (.invoke t (resetInterval s.step base arg)) ∧
+    resetInterval s.step base none = base ∧
+    (∀ x, resetInterval s.step base (some x) = if (s.step : Int) ≤ x then x else base) := by
+  refine ⟨rfl, rfl, fun x => rfl⟩
+
+example : resetInterval 10 25 (some 9) = 25 ∧ resetInterval 10 25 (some 10) = 10 ∧ resetInterval 10 25 none = 25 := by
+  decide
+
+/-! ### exactly once -/
+
+/-- In every reachable state no channel has been closed twice (`dblClose = false`: the Go `close` never panics),
+    and a channel is closed iff its due tick is complete, and then it was closed by exactly that tick.
+    (`due c = c+1` and slot contents only ever move to later due ticks, see `TInv`.) -/
+theorem C03_closed_once (n step : Nat) (hn : 0 < n) (acts : List Act) :
+    let s := run fixed (init n step) acts
+    s.dblClose = false ∧ ∀ c, s.closedBy c = if s.due c ≤ s.cls then some (s.due c) else none := by
+  intro s
+  have h := (inv_reachable n step hn acts).t
+  refine ⟨h.nodbl, fun c => ?_⟩
+  rw [h.due_eq c]
+  exact h.closed_eq c
+
+/-- A closed channel is never re-opened and its closing tick never changes: once ready, a timer stays ready. -/
+theorem C03_closed_stable (n step : Nat) (hn : 0 < n) (acts more : List Act) (c j : Nat)
+    (h : (run fixed (init n step) acts).closedBy c = some j) :
+    (run fixed (init n step) (acts ++ more)).closedBy c = some j := by
+  have h1 := C03_closed_once n step hn acts
+  have h2 := C03_closed_once n step hn (acts ++ more)
+  have hd1 := (inv_reachable n step hn acts).t.due_eq c
+  have hd2 := (inv_reachable n step hn (acts ++ more)).t.due_eq c
+  have hm := (run_mono fixed (run fixed (init n step) acts) more).1
+  rw [← run_append] at hm
+  simp only [] at h1 h2
+  rw [h1.2 c] at h
+  rw [h2.2 c, hd2]
+  rw [hd1] at h
+  split at h
+  · rw [if_pos (by omega)]; exact h
+  · cases h
+
+/-! ### the tick that releases a timer -/
+
+/-- Main theorem.  For EVERY execution and every completed request r (NewTimer, AfterFunc or Reset) the returned
+    channel is due at tick `L + k + 1` for some `L` between the number of ticks COMPLETE when the request was
+    invoked and the number of ticks STARTED when it returned — whatever the number of concurrent requesters,
+    however the request overlaps ticks, and however many whole revolutions pass during the request.  For
+    n ≥ 2 even `ticks started at the invocation ≤ L`. -/
+theorem C03_fire_tick (n step : Nat) (hn : 0 < n) (acts : List Act) (r : Req)
+    (hr : r ∈ (run fixed (init n step) acts).done) :
+    ∃ L, r.invCls ≤ L ∧ L ≤ r.retAdv ∧ (run fixed (init n step) acts).due r.chan = L + r.k + 1 ∧
+      (2 ≤ n → r.invAdv ≤ L) := by
+  have h := inv_reachable n step hn acts
+  obtain ⟨_, _, _, L, h1, h2, h3, h4⟩ := h.d r hr
+  refine ⟨L, h1, h2, ?_, ?_⟩
+  · rw [h.t.due_eq]; exact h3
+  · have hn' : (run fixed (init n step) acts).n = n := by
+      have : ∀ (s : State) (a : Act), (Got.Model.Wheel.step fixed s a).n = s.n := by
+        intro s a
+        cases a with
+        | tick => exact (tick_frame fixed s).1
+        | invoke t d => exact (invoke_frame t d s).1
+        | reset t b a => exact (invoke_frame t _ s).1
+        | req t => exact (req_frame t s).1
+      have hrun : ∀ (acts : List Act) (s : State), (run fixed s acts).n = s.n := by
+        intro acts
+        induction acts with
+        | nil => intro s; rfl
+        | cons a rest ih => intro s; simp only [run, List.foldl_cons] at ih ⊢; rw [ih, this]
+      rw [hrun]; rfl
+    rw [hn'] at h4
+    exact h4
+
+/-- A request that does not overlap any tick (as many ticks complete at the call as started at the return) is
+    released by exactly tick `ticks + k + 1` — the closed form used by the virtual-time correspondence. -/
+theorem C03_fire_tick_sequential (n step : Nat) (hn : 0 < n) (acts : List Act) (r : Req)
+    (hr : r ∈ (run fixed (init n step) acts).done) (hseq : r.invCls = r.retAdv) :
+    (run fixed (init n step) acts).due r.chan = r.invCls + r.k + 1 := by
+  obtain ⟨L, h1, h2, h3, _⟩ := C03_fire_tick n step hn acts r hr
+  rw [h3]; omega
+
+/-- Combination: the timer of a completed request is ready exactly from tick `L + k + 1` on — not before
+    (never early by a whole tick), and as soon as that tick is complete (never late), for the `L` of
+    `C03_fire_tick`. -/
+theorem C03_ready_iff (n step : Nat) (hn : 0 < n) (acts more : List Act) (r : Req)
+    (hr : r ∈ (run fixed (init n step) acts).done) :
+    ∃ L, r.invCls ≤ L ∧ L ≤ r.retAdv ∧
+      (run fixed (init n step) (acts ++ more)).closedBy r.chan =
+        if L + r.k + 1 ≤ (run fixed (init n step) (acts ++ more)).cls then some (L + r.k + 1) else none := by
+  obtain ⟨L, h1, h2, h3, _⟩ := C03_fire_tick n step hn acts r hr
+  refine ⟨L, h1, h2, ?_⟩
+  have hc := (C03_closed_once n step hn (acts ++ more)).2 r.chan
+  have hd1 := (inv_reachable n step hn acts).t.due_eq r.chan
+  have hd2 := (inv_reachable n step hn (acts ++ more)).t.due_eq r.chan
+  rw [hc, hd2, ← hd1, h3]
+
+/-- non-vacuity: a request (interval 0, so k = 0) that overlaps tick 1 of a 3-bucket wheel, is forced to retry by
+    the re-check and is released by tick 2 (L = 1): invoke · loadPos · [tick: loadPos storePos swapSlot] · loadSlot
+    (fresh channel 3!) · reloadPos (changed → retry) · loadPos · loadSlot · reloadPos. -/
+example :
+    let s := run fixed (init 3 10) [.invoke 7 0, .req 7, .tick, .tick, .tick, .req 7, .req 7, .req 7, .req 7, .req 7]
+    s.done = [{ tid := 7, k := 0, invCls := 0, invAdv := 0, retAdv := 1, retCls := 0, chan := 1 }] ∧ s.due 1 = 2 := by
+  decide
+
+/-- non-vacuity of the readiness statement: after two more whole ticks the channel is closed, by tick 2 -/
+example :
+    (run fixed (init 3 10) ([.invoke 7 0, .req 7, .tick, .tick, .tick, .req 7, .req 7, .req 7, .req 7, .req 7] ++
+      [.tick] ++ fullTick)).closedBy 1 = some 2 := by
+  decide
+
+/-! ### ghost state -/
+
+/-- Erasure: `adv`, `cls`, `due`, the closing tick inside `closedBy`, the per-request counters and the `done`
+    log are never read by the real part — two states with the same real part (`real`: position, slots, closed
+    bits, allocator, program counters and locals) have successors with the same real part.  So the ghost
+    bookkeeping cannot mask or alter the behaviour of the modelled code. -/
+theorem C03_ghost_erasure (v : Variant) (s s' : State) (a : Act) (h : real s = real s') :
+    real (Got.Model.Wheel.step v s a) = real (Got.Model.Wheel.step v s' a) :=
+  erasure v s s' a h
+
+example : real (init 3 10) = real { init 3 10 with adv := 5, cls := 4, due := fun _ => 0, done := [] } := rfl
+
+/-! ### timing on the wheel's tick clock -/
+
+/-- If the request falls into tick period `L` (`L·s ≤ τ < (L+1)·s`) and its interval is in range, the timer
+    released by tick `L+k+1` (time `(L+k+1)·s`) is ready after `t = fire − τ` with `D − s < t ≤ D`,
+    `D = max (s·⌊d/s⌋) s`.  (Stated additively: `fire ≤ τ + D` and `τ + D < fire + s`; also `τ < fire`.) -/
+theorem C03_timing (s d L τ : Nat) (_hs : 0 < s) (hL : L * s ≤ τ) (hτ : τ < (L + 1) * s) :
+    let fire := fireTime s L (bucketIndex s d)
+    let D := nominal s d
+    τ < fire ∧ fire ≤ τ + D ∧ τ + D < fire + s := by
+  intro fire D
+  have hD : D = s * (bucketIndex s d + 1) := nominal_eq s d
+  have hf : fire = L * s + s * (bucketIndex s d + 1) := fireTime_eq s L _
+  have h1 : (L + 1) * s = L * s + s := by rw [Nat.add_mul, Nat.one_mul]
+  have h2 : s * 1 ≤ s * (bucketIndex s d + 1) := Nat.mul_le_mul_left s (Nat.succ_le_succ (Nat.zero_le _))
+  rw [hD, hf]
+  generalize s * (bucketIndex s d + 1) = X at h2 ⊢
+  omega
+
+example : fireTime 10 2 (bucketIndex 10 25) = 40 ∧ nominal 10 25 = 20 ∧ nominal 10 3 = 10 := by decide
+
+/-- The closed lower bound `t = D − s` is reached only by a request issued exactly at a tick instant and
+    ordered before that tick (it sees `L = τ/s − 1`). -/
+theorem C03_timing_tie (s d L : Nat) :
+    fireTime s L (bucketIndex s d) + s = (L + 1) * s + nominal s d := by
+  rw [nominal_eq, fireTime_eq, Nat.add_mul L 1, Nat.one_mul]
+  omega
+
+/-- The `L` of `C03_fire_tick` is the tick period of an instant inside the request: if tick j happens at time
+    j·s, `cI` ticks were complete at the invocation instant `τi` (so `cI·s ≤ τi ≤ (cI+1)·s`) and `aR` ticks had
+    started at the return instant `τr` (so `aR·s ≤ τr`), then every `L` with `cI ≤ L ≤ aR` is the tick period of
+    some instant τ ∈ [τi, τr] — except in the tie case, where the request was issued at the very instant of
+    tick `cI+1` and ordered before it. -/
+theorem C03_window (s cI aR L τi τr : Nat) (hs : 0 < s) (h1 : cI * s ≤ τi) (h1' : τi ≤ (cI + 1) * s)
+    (h2 : aR * s ≤ τr) (hir : τi ≤ τr) (hL1 : cI ≤ L) (hL2 : L ≤ aR) :
+    ∃ τ, τi ≤ τ ∧ τ ≤ τr ∧ L * s ≤ τ ∧ (τ < (L + 1) * s ∨ (L = cI ∧ τi = (cI + 1) * s)) := by
+  by_cases hc : L = cI
+  · subst hc
+    by_cases ht : τi < (L + 1) * s
+    · exact ⟨τi, Nat.le_refl _, hir, h1, Or.inl ht⟩
+    · exact ⟨τi, Nat.le_refl _, hir, h1, Or.inr ⟨rfl, by omega⟩⟩
+  · have h3 : (cI + 1) * s ≤ L * s := Nat.mul_le_mul_right s (by omega)
+    have h4 : L * s ≤ aR * s := Nat.mul_le_mul_right s hL2
+    have h5 : (L + 1) * s = L * s + s := by rw [Nat.add_mul, Nat.one_mul]
+    exact ⟨L * s, by omega, by omega, Nat.le_refl _, Or.inl (by omega)⟩
+
+/-! ### the defect of the old code, and why the re-check is needed -/
+
+/-- Old code (slot replaced BEFORE the position advance, no re-check), 3 buckets: `req.loadPos ; tick.loadPos ;
+    tick.swapSlot ; req.loadSlot` returns the fresh channel, due at tick 4 = n+1, although k = 0 and no tick had
+    even started when the request returned (C03_fire_tick would demand due = 1). -/
+theorem C03_old_counterexample :
+    let s := run old (init 3 10) [.invoke 0 0, .req 0, .tick, .tick, .req 0]
+    s.done = [{ tid := 0, k := 0, invCls := 0, invAdv := 0, retAdv := 0, retCls := 0, chan := 3 }] ∧ s.due 3 = 4 := by
+  decide
+
+/-- The new order alone is not enough: without the re-check, `req.loadPos ; whole tick ; req.loadSlot` reads the
+    slot that tick 1 has just refilled: due 4, while only ticks ≤ 2 are allowed (L ≤ retAdv = 1, k = 0). -/
+theorem C03_norecheck_counterexample :
+    let s := run noRecheck (init 3 10) [.invoke 0 0, .req 0, .tick, .tick, .tick, .tick, .req 0]
+    s.done = [{ tid := 0, k := 0, invCls := 0, invAdv := 0, retAdv := 1, retCls := 1, chan := 3 }] ∧ s.due 3 = 4 := by
+  decide
